@@ -58,6 +58,20 @@ def strategy(tier):
         for o in draw(st.lists(st.sampled_from(higher), min_size=0, max_size=3, unique=True)):
             terms[",".join(map(str, o))] = p["terms"][draw(st.sampled_from(first))]
         p = dict(p, terms=terms)
+        if nb >= 2 and draw(st.integers(0, 5)) == 0:
+            # two blocks that share an unperturbed energy but are decoupled at every order (legal: one of them couples to
+            # nothing outside itself, so no Sylvester equation between the two ever has a right-hand side)
+            b1 = draw(st.integers(0, nb - 1))
+            b2 = draw(st.sampled_from([b for b in range(nb) if b != b1]))
+            s1 = [q for q, a in enumerate(p["assign"]) if a == b1]
+            s2 = [q for q, a in enumerate(p["assign"]) if a == b2]
+            en, im = list(p["energy"]), list(p["eimag"])
+            en[s2[0]], im[s2[0]] = en[s1[0]], im[s1[0]]
+            cut = {}
+            for key, M in p["terms"].items():
+                cut[key] = [[[0, 0] if ((x in s2) != (y in s2)) else list(M[x][y]) for y in range(len(M))] for x in range(len(M))]
+            if any(en) or any(im):  # (an identically vanishing H_0 is rejected by design)
+                p = dict(p, energy=en, eimag=im, terms=cut, selection={"kind": "none", "full": [], "masks": {}}, shared_decoupled=True)
         reqs = []
         for _ in range(draw(st.integers(1, 6))):
             n = [draw(st.integers(0, 3)) for _ in range(k)]
@@ -108,6 +122,8 @@ def check_case(case, enforce_all=False):
     p = case["problem"]
     form, symbolic = case["form"], case["symbolic"]
     out.labels = bd_checks.labels_for(p) + [f"form={form}", "elements=sympy" if symbolic else "elements=numpy", "mode=hermitian" if p["hermitian"] else "mode=nonhermitian"]
+    if p.get("shared_decoupled"):
+        out.labels.append("blocks-share-energy-but-decoupled")
     k = p["n_params"]
     zero_order = (0,) * k
     log = []
@@ -115,7 +131,9 @@ def check_case(case, enforce_all=False):
     if form == "scalar_implicit":
         # implicit mode: whole-matrix lazy series, eigenvectors of all blocks but the last, default (direct) solver
         lib_form = "scalar"
-        if len(p["blocks"]) < 2 or symbolic:
+        # (with a level shared between an explicit and the implicit block E - H_0 is singular on the complement: the
+        # decoupled-degenerate class is legal in explicit mode only)
+        if len(p["blocks"]) < 2 or symbolic or p.get("shared_decoupled"):
             form = "scalar"
             out.labels[-3] = "form=scalar"
 
